@@ -60,7 +60,10 @@ def getLines (j : Json) : Except String (List Str) := do
 /-- `c15.flatten`: the model of `flatten_ast` (code as written). -/
 def flatten : Handler := fun j => do
   let t ← getTree j
-  pure (Json.mkObj [("lines", linesJson (flattenAst implCfg HashState.reset t).1)])
+  let cfg := match j.getObjValAs? String "cfg" with
+    | .ok "spec" => specCfg
+    | _ => implCfg
+  pure (Json.mkObj [("lines", linesJson (flattenAst cfg HashState.reset t).1)])
 
 /-- `c15.dump`: the raw dump before post-processing. -/
 def dump : Handler := fun j => do
